@@ -119,9 +119,10 @@ theorem processSel_quiet {L : Loc} {rec : Cfg → St → Except Err (List Sel ×
     · split at h
       · cases h
       · rename_i sub' st1 hr
-        cases h
         have := hrec _ _ _ _ hr hc
-        simpa using this
+        split at h
+        · cases h; simpa using this
+        · split at h <;> (cases h; simpa using this)
   | inline cond dirs sub =>
     simp only [processSel] at h
     split at h
@@ -249,9 +250,10 @@ theorem processSel_queueFrom {rec : Cfg → St → Except Err (List Sel × St)} 
     · split at h
       · cases h
       · rename_i sub' st1 hr
-        cases h
         have := hrec _ _ _ _ hr
-        simpa using this
+        split at h
+        · cases h; simpa using this
+        · split at h <;> (cases h; simpa using this)
   | inline cond dirs sub =>
     simp only [processSel] at h
     split at h
